@@ -307,6 +307,14 @@ theorem rejected_registration_unchanged (st : State) (ok : Bool) (r : Relayer)
   unfold applyReg at *
   by_cases hv : validRegistration ok r = true <;> simp_all
 
+/-- For a TSS client the verdict does not depend on anything the message carries as proof: `packet.go`
+replaces the proof by the signer unconditionally, so the external proof verdict (and with it the message's
+own `ProofCommitment` / `ProofAcked` bytes — empty, garbage, the TSS address itself, anybody's address) is
+irrelevant; only `msg.Signer = TssAddress` counts. -/
+theorem tss_proof_field_irrelevant (a : Str) (s : Signer) (p1 p2 : Bool) :
+    verify (.tss a) s p1 = verify (.tss a) s p2 ∧ (verify (.tss a) s p1 = true ↔ s.raw = a) := by
+  simp [verify]
+
 /-! ### registration is per chain, over arbitrary histories -/
 
 /-- messages never touch the registry -/
